@@ -143,6 +143,10 @@ func helperForms(call *ssa.Call, elem ssa.Value, fWide *types.Var) (map[string]p
 			if wp != nil && c.If.Cond == ssa.Value(wp) {
 				variant = map[bool]string{true: "wide", false: "narrow"}[c.Pol]
 			}
+			// a method of the package itself tests its own `wide` field
+			if f, _ := core.FieldLoad(c.If.Cond); f != nil && f == fWide {
+				variant = map[bool]string{true: "wide", false: "narrow"}[c.Pol]
+			}
 		}
 		f := pathLin(core.RetVals(ret)[0], pa, ep, nil)
 		if !f.ok {
